@@ -264,6 +264,50 @@ def run(rep, ctx):
     merge(a3)
     rep.extra["paths_analysed"] = paths
 
+    # ---- A4: mixed operands go through the checked constructor and the checked same-type operator --------------------
+    a4 = rep.rule("C17.A4", "FLOW", "SafeInt<T> op U and U op SafeInt<T>: the plain operand is converted by the range-checking constructor "
+                  "SafeInt<T>::SafeInt<U> (A3) - never by an implicit integer conversion - and the result is that of the checked "
+                  "same-type operator (A1)", floor=60)
+    for f in sorted([g for g in F.funcs if not g.is_dependent() and g.name in OPS and len(g.params) == 2], key=lambda g: g.full):
+        kinds_ = [p["t"].startswith("SafeInt<") for p in f.params]
+        if kinds_[0] == kinds_[1]:
+            continue
+        si, pi = (0, 1) if kinds_[0] else (1, 0)
+        T = (f.params[si].get("ct") or "").replace("mp::SafeInt<", "").rstrip(">")
+        U = f.params[pi].get("ct") or f.params[pi]["t"]
+        pd = f.params[pi]["declId"]
+        probs = []
+        tt_, tu_ = int_type(T), int_type(U)
+        widening = tt_ is not None and tu_ is not None and type_range(tt_)[0] <= type_range(tu_)[0] and type_range(tu_)[1] <= type_range(tt_)[1]
+        uses = [n for n in f.walk() if n["k"] == "DeclRefExpr" and n.get("declId") == pd]
+        if not uses:
+            probs.append("the plain operand is not used")
+        for u in uses:
+            conv = None
+            lossy = False
+            for a in f.ancestors(u):
+                if a["k"] == "ImplicitCastExpr" and a.get("ck") in ("IntegralCast", "IntegralToBoolean", "FloatingToIntegral", "IntegralToFloating"):
+                    lossy = True
+                if a["k"] in ("CXXConstructExpr", "CXXTemporaryObjectExpr") and (a.get("callee") or "") == "mp::SafeInt::SafeInt":
+                    conv = a
+                    break
+                if a["k"] not in ("ImplicitCastExpr", "ParenExpr", "CXXFunctionalCastExpr", "MaterializeTemporaryExpr", "CXXBindTemporaryExpr", "ExprWithCleanups",
+                                  "CStyleCastExpr", "CXXStaticCastExpr"):
+                    break
+            cf = (conv.get("calleeFull") or "") if conv is not None else ""
+            via_template = cf.endswith("::SafeInt<%s>" % U)
+            same_type = (U == T) and cf == "mp::SafeInt<%s>::SafeInt" % T
+            if conv is None:
+                probs.append("`%s` does not reach a SafeInt<%s> constructor" % (render(u), T))
+            elif (lossy or not (via_template or same_type)) and not widening:
+                probs.append("`%s` of type %s is converted to %s before the constructor `%s` sees it: out-of-range values wrap silently instead of raising OverflowError" % (render(u), U, T, cf))
+        rets = [r for r in f.walk() if r["k"] == "ReturnStmt" and kids(r)]
+        opc = [c for c in f.walk() if c["k"] == "CXXOperatorCallExpr" and (c.get("calleeFull") or "") == "mp::%s<%s>" % (f.name, T)]
+        if len(rets) != 1 or len(opc) != 1 or not any(x["i"] == opc[0]["i"] for x in walk(rets[0])):
+            probs.append("the result is not that of the checked operator mp::%s<%s>" % (f.name, T))
+        a4.check(not probs, "%s|%s|%s%s" % (f.name, T, U, "|rev" if si == 1 else ""), short_loc(f.loc),
+                 "%s: operand of type %s passes SafeInt<%s>::SafeInt<%s> and the checked operator" % (f.full, U, T, U), "; ".join(probs[:2]))
+
     # ---- F1: allocation sizes -----------------------------------------------------
     f1 = rep.rule("C17.F1", "FLOW",
                   "every size that reaches Allocate / resize / new[] in expr.h, problem.h from a "
